@@ -215,15 +215,21 @@ func c14StartWatchdog() {
 			if c14Watch.on {
 				// logical hang: the process burns no CPU at all while a load is in flight and every goroutine other than this
 				// one is parked on a channel / lock (what the Go runtime reports as "all goroutines are asleep" when no timer runs)
-				if now := c14CPU(); now-idleCPU < time.Millisecond {
+				now := c14CPU() // per-sample delta: the sampling itself costs a few microseconds each time
+				if now-idleCPU < 500*time.Microsecond {
 					idle++
 				} else {
-					idle, idleCPU = 0, now
+					idle = 0
 				}
-				if idle >= 40 && c14AllBlocked() {
-					b, _ := json.Marshal(c14Result{I: c14Watch.idx, O: "deadlock"})
-					fmt.Printf("\nC14= %s\n", b)
-					os.Exit(c14ExitDeadlock)
+				idleCPU = now
+				if idle >= 40 {
+					if c14AllBlocked() {
+						b, _ := json.Marshal(c14Result{I: c14Watch.idx, O: "deadlock"})
+						fmt.Printf("\nC14= %s\n", b)
+						os.Exit(c14ExitDeadlock)
+					}
+					idle = 20 // something is still runnable: look again in a second
+					idleCPU = c14CPU()
 				}
 				if used := c14TaskCPU() - c14Watch.start; used > c14Watch.budget {
 					b, _ := json.Marshal(c14Result{I: c14Watch.idx, O: "cpu-exceeded", CPUus: int64(used / time.Microsecond)})
